@@ -39,6 +39,13 @@ def gen_shapes(rng):
     c = _small(rng)
     c["shape"] = rng.choice(["tuple_tuple", "list_list", "seq", "mixed", "seq"])
     c["family"] = "I:" + c["shape"]
+    r = rng.random()
+    if r < 0.06:
+        c["jobs"][rng.randrange(len(c["jobs"]))] = []        # an empty job in a non-list container: ValueError
+    elif r < 0.10:
+        rng.choice(rng.choice(c["jobs"]))[rng.randrange(2)] = -1
+    elif r < 0.13:
+        c["jobs"] = []                                        # an empty tuple / Sequence of jobs
     return c
 
 
@@ -53,8 +60,8 @@ def gen_labels(rng):
                 o[1] = o[1] + rng.choice([0, 257, 1000]) if o[1] else 0
         c["fresh_ints"] = True
         c["family"] = "L:fresh-ints>=257"
-        if off > 320:
-            c["max_iter"] = min(c["max_iter"], 5)
+        # n_machines = max + 1: a drawn machine is rarely a used one, so many passes are needed for the local search to act
+        c["max_iter"] = rng.choice([300, 1000]) if off <= 320 else 2000
     elif r < 0.8:
         for job in c["jobs"]:
             for o in job:
